@@ -31,6 +31,7 @@ var _ = image.Point{}
 
 // checkC13 returns a class label, "" when the encoder rejected the input.
 func checkC13(t TB, st *Stats, c C12Case) string {
+	noteCase("C13", "minimal-size", c)
 	const P, K = "C13", "minimal-size"
 	switch c.Sym {
 	case "qr":
